@@ -27,10 +27,22 @@
 (* dropped object stream is neither collected nor expanded (its members are *)
 (* never seen), a dropped member is removed from its block before the block *)
 (* is handed in.  drop = {} is the plain load.                              *)
+(*                                                                          *)
+(* Deferred streams: a directly stored stream whose content could not be    *)
+(* read during parsing (its Length is itself a compressed object) is pushed *)
+(* on a list under a mutex - in completion order - and filled in after the  *)
+(* merge, each on its own; a stream whose late read fails stays empty.      *)
+(* defer[n] says what a directly stored number is: "no" (not deferred),     *)
+(* "ok" (filled in late) or "bad" (the late read fails).                    *)
+(* DevStopAtFirstFailure = TRUE models a loader that stops filling in at    *)
+(* the first failure (a seeded change): which streams stay empty then       *)
+(* depends on the completion order.                                         *)
 (***************************************************************************)
 EXTENDS Naturals, Sequences, FiniteSets, SequencesExt
 
 CONSTANTS Workers, Containers, Nums, DevFirstWins,
+          DeferU,              \* directly stored numbers that may be deferred streams; {} = none
+          DevStopAtFirstFailure,
           DropU                \* numbers a filter may drop (SUBSET (Nums \cup Containers)); {} = plain loads only
 
 Absent == 0
@@ -38,13 +50,16 @@ Normal == 999
 
 VARIABLES xref, members,      \* the file (chosen in Init, then constant)
           drop,               \* what the caller's filter drops (chosen in Init, then constant)
+          defer,              \* [Nums -> {"no", "ok", "bad"}] (chosen in Init, then constant)
+          late,               \* deferred streams in the order the workers pushed them
+          filled,             \* streams whose content was filled in after the merge
           pending,            \* Normal entries not yet taken: containers and directly stored numbers
           busy,               \* [Workers -> entry being parsed, or 0]
           direct,             \* directly stored objects parsed so far (set of numbers)
           blocks,             \* container numbers in the order their blocks were handed in
           result, pc
 
-plvars == <<xref, members, drop, pending, busy, direct, blocks, result, pc>>
+plvars == <<xref, members, drop, defer, late, filled, pending, busy, direct, blocks, result, pc>>
 
 Entries == Containers \cup {n \in Nums : xref[n] = Normal}
 
@@ -52,6 +67,9 @@ PLInit ==
     /\ xref \in [Nums -> {Absent, Normal} \cup Containers]
     /\ members \in [Containers -> SUBSET Nums]
     /\ drop \in SUBSET DropU
+    /\ defer \in [Nums -> {"no", "ok", "bad"}]
+    /\ \A n \in Nums : defer[n] # "no" => (n \in DeferU /\ xref[n] = Normal)
+    /\ late = <<>> /\ filled = {}
     /\ pending = Containers \cup {n \in Nums : xref[n] = Normal}
     /\ busy = [w \in Workers |-> 0]
     /\ direct = {} /\ blocks = <<>> /\ result = <<>> /\ pc = "load"
@@ -59,18 +77,19 @@ PLInit ==
 Take(w, e) ==
     /\ pc = "load" /\ busy[w] = 0 /\ e \in pending
     /\ busy' = [busy EXCEPT ![w] = e] /\ pending' = pending \ {e}
-    /\ UNCHANGED <<xref, members, drop, direct, blocks, result, pc>>
+    /\ UNCHANGED <<xref, members, drop, defer, late, filled, direct, blocks, result, pc>>
 
 \* the worker finished parsing: a container hands its block in (under the mutex), anything else is collected
 Finish(w) ==
     /\ pc = "load" /\ busy[w] # 0
     /\ IF busy[w] \in drop
-       THEN UNCHANGED <<direct, blocks>>                         \* filter_func(..)? : neither collected nor expanded
+       THEN UNCHANGED <<direct, blocks, late>>                   \* filter_func(..)? : neither collected nor expanded
        ELSE IF busy[w] \in Containers
-       THEN blocks' = Append(blocks, busy[w]) /\ UNCHANGED direct
-       ELSE direct' = direct \cup {busy[w]} /\ UNCHANGED blocks
+       THEN blocks' = Append(blocks, busy[w]) /\ UNCHANGED <<direct, late>>
+       ELSE /\ direct' = direct \cup {busy[w]} /\ UNCHANGED blocks
+            /\ late' = IF defer[busy[w]] # "no" THEN Append(late, busy[w]) ELSE late
     /\ busy' = [busy EXCEPT ![w] = 0]
-    /\ UNCHANGED <<xref, members, drop, pending, result, pc>>
+    /\ UNCHANGED <<xref, members, drop, defer, filled, pending, result, pc>>
 
 \* merge of the blocks in a given order into the map num -> <<where, num>> that already holds the direct objects
 MergeBlocks(order, dir, xr, mem, firstWins) ==
@@ -85,11 +104,18 @@ MergeBlocks(order, dir, xr, mem, firstWins) ==
 \* the blocks as the workers hand them in: members the filter dropped are gone
 Kept(mem, dr) == [c \in DOMAIN mem |-> mem[c] \ dr]
 
+\* the late reads, in the order given: each on its own (as the code is), or stopping at the first failure
+FillIn(order, df, stop) ==
+    LET bad == SelectInSeq(order, LAMBDA n : df[n] = "bad")
+        upto == IF stop /\ bad # 0 THEN bad - 1 ELSE Len(order)
+    IN {order[i] : i \in {j \in 1..upto : df[order[j]] = "ok"}}
+
 Merge ==
     /\ pc = "load" /\ pending = {} /\ \A w \in Workers : busy[w] = 0
     /\ result' = MergeBlocks(blocks, direct, xref, Kept(members, drop), DevFirstWins)
+    /\ filled' = FillIn(late, defer, DevStopAtFirstFailure)
     /\ pc' = "done"
-    /\ UNCHANGED <<xref, members, drop, pending, busy, direct, blocks>>
+    /\ UNCHANGED <<xref, members, drop, defer, late, pending, busy, direct, blocks>>
 
 PLNext == (\E w \in Workers, e \in Entries : Take(w, e)) \/ (\E w \in Workers : Finish(w)) \/ Merge
 
@@ -103,7 +129,12 @@ SeqResult == MergeBlocks(SortSeq(SetToSeq(Containers \ drop), LAMBDA a, b : a < 
 \* the plain load of the same file
 PlainResult == MergeBlocks(SortSeq(SetToSeq(Containers), LAMBDA a, b : a < b), {n \in Nums : xref[n] = Normal}, xref, members, DevFirstWins)
 
-Deterministic == pc = "done" => result = SeqResult
+SeqFilled == FillIn(SortSeq(SetToSeq({n \in Nums : defer[n] # "no"} \ drop), LAMBDA a, b : a < b), defer, DevStopAtFirstFailure)
+
+Deterministic == pc = "done" => (result = SeqResult /\ filled = SeqFilled)
+
+\* every deferred stream whose late read can succeed is filled in, whatever the other ones do
+AllFilled == pc = "done" => filled = {n \in Nums : defer[n] = "ok"} \ drop
 
 \* C07's clause on this level: a compressed object comes from the container its xref entry names
 LatestWins == pc = "done" => \A n \in DOMAIN result :
